@@ -1,0 +1,11 @@
+// SPDX-FileCopyrightText: 2020 Alvar Penning
+//
+// SPDX-License-Identifier: GPL-3.0-or-later
+
+//go:build !verif
+// +build !verif
+
+package agent
+
+// verifPoint marks a schedule point for the verification harness; it does nothing in regular builds.
+func verifPoint(string) {}
